@@ -89,6 +89,8 @@ class Interp:
                 c = self.operand(t["cond"])
                 if bool(c) != t["expected"]:
                     raise Panic("%s:%s %s" % (t["sp"]["file"], t["sp"]["line"], t["ak"]))
+                if getattr(self, "trace", None) is not None:
+                    self.trace.add((func.key, b))
                 b = t["t"]
             elif k == "call":
                 v = self.do_call(t)
@@ -352,6 +354,7 @@ class Interp:
             if self.depth > 8:
                 raise Undecidable("call depth")
             sub = Interp(self.F, self.max_steps, self.depth + 1)
+            sub.trace = getattr(self, "trace", None)
             # pass references by value (callee derefs them)
             r = sub.call(f, [self._byval(a) for a in args])
             return r
